@@ -10,11 +10,13 @@ import (
 	"verifharness/lib"
 	"verifharness/props/c15"
 	"verifharness/props/c16"
+	"verifharness/props/c20"
 )
 
 var table = map[string]func(lib.Opts){
 	"C15": c15.Run,
 	"C16": c16.Run,
+	"C20": c20.Run,
 }
 
 func main() {
